@@ -300,12 +300,14 @@ def tasks(tier, seed):
             if nh == 3 and nm == 2:
                 continue
             out.append(Task(MOD, "grow", dict(nh=nh, nm=nm), weight=3 ** nh))
-            out.append(Task(MOD, "shrink", dict(nh=nh, nm=nm), weight=6 ** nh))
+            out.append(Task(MOD, "shrink", dict(nh=nh, nm=nm), weight=6 ** nh, shards=4 if nh == 3 else 1))
     for nh in range(0, 3 if tier == "quick" else 4):
-        out.append(Task(MOD, "cycles", dict(nh=nh, nm=1 if nh < 3 else 0, n=1), weight=8 ** nh))
+        out.append(Task(MOD, "cycles", dict(nh=nh, nm=1 if nh < 3 else 0, n=1), weight=8 ** nh,
+                        shards=1 if nh < 2 else (4 if nh == 2 else 16)))
     if tier == "thorough":
         for nh in range(0, 3):
-            out.append(Task(MOD, "cycles", dict(nh=nh, nm=0, n=2), weight=30 ** nh + 10))
+            out.append(Task(MOD, "cycles", dict(nh=nh, nm=0, n=2), weight=30 ** nh + 10,
+                            shards=1 if nh == 0 else (8 if nh == 1 else 32)))
     out.append(Task(MOD, "bad_factory"))
     for n in range(0, 4):
         out.append(Task(MOD, "init", dict(n=n)))
